@@ -185,7 +185,11 @@ def run(ctx) -> Result:
 
 
 def _check_optimal_setters(res: Result, proj: Project):
-    allowed_true = {"ExactAlgorithmPulp.compute_consensus_rankings", "ExactAlgorithmCplex.compute_consensus_rankings"}
+    # the exact back-ends (whichever function of their modules builds the features) may assert optimality outright;
+    # ParCons stores the flag it computed (decided by P1 and, for every configuration, by the end-to-end rule:
+    # flagged => global minimiser)
+    exact_modules = ("corankco.algorithms.exact.",)
+    parcons_module = "corankco.algorithms.parcons."
     seen_any = False
     for f in proj.all_functions():
         for n in ast.walk(f.node):
@@ -208,13 +212,13 @@ def _check_optimal_setters(res: Result, proj: Project):
             key = f"{f.short}:NECESSARILY_OPTIMAL"
             if isinstance(val, ast.Constant):
                 if val.value is True:
-                    res.check(f.short in allowed_true, "P2", key, f.loc(n),
+                    res.check(f.module.name.startswith(exact_modules), "P2", key, f.loc(n),
                               ok_detail="exact back-end asserts optimality",
                               bad_detail="a literal True is stored under NECESSARILY_OPTIMAL outside the exact back-ends")
                 else:
                     res.ok("P2", key, f.loc(n), f"stores {val.value!r}", nontrivial=False)
-            elif f.short == "ParCons.compute_consensus_rankings" and isinstance(val, ast.Name):
-                res.ok("P2", key, f.loc(n), f"stores the flag variable `{val.id}` (decided by P1)")
+            elif f.module.name.startswith(parcons_module) and isinstance(val, (ast.Name, ast.Attribute, ast.BoolOp, ast.UnaryOp, ast.Compare)):
+                res.ok("P2", key, f.loc(n), f"stores the computed flag `{src(val)[:40]}` (decided by P1 and the end-to-end rule)")
             else:
                 res.bad("P2", key, f.loc(n), f"unverified assertion of optimality: stores `{src(val)}`")
     if not seen_any:
